@@ -133,8 +133,18 @@ def cases_C17(rng, tier):
     for name, ty, wrap in positions:
         for v in pwin:
             out.append(case("dec", ty, wrap(enc(I(v))), fam="position:" + name))
-        for t in ("", "a", "alg"):
-            out.append(case("dec", ty, wrap(enc(T(t))), fam="position-text:" + name))
+        import tables as _tbl
+        names = ["", "a", "alg", "OKP", "EC", "EC2", "RSA", "oct", "Symmetric", "ES256", "HS256", "A128GCM", "direct", "kid", "crit", "sign", "verify",
+                 "encrypt", "iss", "sub", "exp", "cnf", "Reserved", "0", "1", "-7", "text/plain", "application/cbor"]
+        for reg in _tbl.REG.values():
+            names += list(reg.values())[:4]
+        for t in sorted(set(names + [x.lower() for x in names] + [x.upper() for x in names])):
+            if name in ("content-format", "protected-ct", "countersig-ct"):
+                out.append(case("dec", ty, wrap(enc(T(t))), fam="position-text:" + name))     # content types have their own text rules
+            elif ty == "CoseKdfContext":
+                out.append(case("dec", ty, wrap(enc(T(t))), fam="position-text:" + name, expect_re=r"ok enc=[0-9a-f]*" + enc(T(t)).hex() + r"[0-9a-f]*"))
+            else:
+                out.append(case("dec", ty, wrap(enc(T(t))), fam="position-text:" + name, expect_re=r"ok .*t" + t.encode().hex() + r"[,\]].*"))
     return out
 
 # ================================================================= C15
@@ -234,6 +244,17 @@ def cases_C15(rng, tier):
                         out.append(case("dec", ty, enc(v), fam="nested-range:" + pos, expect="err:Range", strict_err=True, sign_nested=masked))
                     elif good:
                         out.append(case("dec", ty, enc(v), fam="nested-range-ok", expect_re=r"ok .*"))
+    # two distinct in-range identifiers in ONE map, adjacent at the extremes (nothing may conflate them)
+    ext = [-2**63, -2**63 + 1, -2**63 + 2, 2**63 - 1, 2**63 - 2, -65537, -65538, -65539, 0, -1, 8, 9]
+    for a, b in itertools.permutations(ext, 2):
+        claim_ok = all(x < -65536 or x in CLAIM_REG for x in (a, b))
+        out.append(case("dec", "ClaimsSet", enc(M((I(a), I(1)), (I(b), I(2)))), fam="extra-pair-claims",
+                        **({"expect_re": r"ok .*" + re.escape(pyspec.show(I(a))) + r".*" + re.escape(pyspec.show(I(b))) + r".*"} if claim_ok else {"expect_re": r"err:\w+"})))
+        if not (1 <= a <= 7 or 1 <= b <= 7):
+            out.append(case("dec", "Header", enc(M((I(a), I(1)), (I(b), I(2)))), fam="extra-pair-header",
+                            expect_re=r"ok .*" + re.escape(pyspec.show(I(a))) + r".*" + re.escape(pyspec.show(I(b))) + r".*"))
+        if not (1 <= a <= 5 or 1 <= b <= 5):
+            out.append(case("rt", "CoseKey", enc(M((I(1), I(4)), (I(a), I(1)), (I(b), I(2)))), fam="extra-pair-key", expect_re=r"ok [0-9a-f]+ T T"))
     if tier == "quick":
         # keep the boundary lattice in full, sample the rest
         keep = [c for c in out if c["fam"] in ("label", "nonce", "key-data-length", "label-encode") or c["fam"].startswith("extra-") or c["fam"].startswith("nested-range")]
@@ -291,6 +312,19 @@ def cases_C14(rng, tier):
         for t in sorted(set(TAGS + [0, 1, 2, 3, 4, 5, 16, 17, 18, 21, 22, 23, 24, 32, 33, 34, 35, 36, 61, 63, 96, 97, 98, 256, 55799, 55800, 2**32, 2**64 - 1])):
             out.append(case("dectag", ty, head(6, t) + own, fam="tag-over-own-tag", expect_re=r"err:\w+"))
             out.append(case("dec", ty, head(6, t) + own, fam="tag-over-own-tag", expect_re=r"err:\w+"))
+    # legal but deep nesting in every free-form position, around every plausible smaller recursion limit
+    # (ciborium's own is 256; the proved model decides each depth)
+    for d in (6, 7, 8, 9, 15, 16, 17, 31, 32, 33, 63, 64, 65, 127, 128, 129, 200, 250, 253, 254, 255, 256):
+        deep = b"\x81" * d + b"\x00"
+        deepm = b"".join(b"\xa1\x00" for _ in range(d)) + b"\x00"
+        for inner in (deep, deepm):
+            for ty, b in (("Header", b"\xa1\x18\x63" + inner), ("CoseKey", b"\xa2\x01\x04\x20" + inner), ("ClaimsSet", b"\xa1\x18\x63" + inner),
+                          ("CoseSign1", b"\x84\x40\xa1\x18\x63" + inner + b"\xf6\x40"), ("CoseEncrypt0", b"\x83" + enc(B(b"\xa1\x18\x63" + inner)) + b"\xa0\xf6"),
+                          ("CoseMac", b"\x85\x40\xa0\xf6\x40\x81\x83\x40\xa1\x18\x63" + inner + b"\xf6")):
+                out.append(case("dec", ty, b, fam="depth-sweep", key=(ty, b)))
+                out.append(case("rt", ty, b, fam="depth-sweep-rt", key=(ty, b)))
+                if ty in TAGGED_TYPES:
+                    out.append(case("dectag", ty, head(6, MSG_TAG[ty]) + b, fam="depth-sweep-tagged"))
     return out
 
 def post_C14(cases, impl):
